@@ -1237,7 +1237,10 @@ impl Typer {
     ) -> tast::Expr {
         let name_display = name.display();
         let (resolved_name, type_env) = super::util::resolve_type_name(genv, &name_display);
-        let ctor = type_env.lookup_constructor(&tast::TastIdent(resolved_name.clone()));
+        let ctor_name = tast::TastIdent(resolved_name.clone());
+        let ctor = type_env
+            .lookup_struct_constructor(&ctor_name)
+            .or_else(|| type_env.lookup_constructor(&ctor_name));
         let Some((constructor, constr_ty)) = ctor else {
             super::util::push_error(
                 diagnostics,
@@ -2925,7 +2928,8 @@ impl Typer {
                     }
                 }
 
-                let ctor = type_env.lookup_constructor(&tast::TastIdent(type_name.clone()));
+                let ctor =
+                    type_env.lookup_struct_constructor(&tast::TastIdent(type_name.clone()));
                 let Some((constructor, constr_ty)) = ctor else {
                     super::util::push_ice(
                         diagnostics,
